@@ -344,6 +344,12 @@ def check_main_loop(ctx, rules=("FLOW", "TIME")):
         return True
 
     if "FLOW" in rules:
+        # the list of tracks only grows: nothing is removed from it (single-frame tracks are tracks, too)
+        rem = [c_ for c_ in ov.calls() if isinstance(c_.func, ast.Attribute) and isinstance(c_.func.value, ast.Name) and c_.func.value.id == "tracks"
+               and c_.func.attr in ("remove_short_tracks", "pop", "remove", "clear", "__delitem__")]
+        rem += [s_ for s_ in ov.statements() if isinstance(s_, ast.Delete) and any("tracks" in U(t_) for t_ in s_.targets)]
+        ctx.decide(not rem, "FLOW", site + ":keeps-all", (outer, rem[0]) if rem else outer, "no track is removed from the result",
+                   f"`{U(rem[0])[:60] if rem else ''}` removes tracks from the result: droplets that are seen in a single frame only (duration 0) are then in no track at all")
         ok_call = len(calls) == 1 and skipped_only_when_empty(si.statement(calls[0]))
         ctx.decide(ok_it and ok_call, "FLOW", site + ":every-frame", (outer, lp),
                    "every frame of time_course.items() is handed to the matcher, in order",
